@@ -114,6 +114,10 @@ partial def driverStep (st : PState) (line : SExp) : PState × SExp :=
     match AL.get? st.parts w, asNat? b with
     | some p, some b => let p' := Parts.set p b; ({ st with parts := AL.set st.parts w p' }, .list [.atom "ok", encPart p'])
     | _, _ => (st, .atom "bad-op")
+  | .list [.atom "pquiet", .atom w, b] =>
+    match AL.get? st.parts w, asNat? b with
+    | some p, some b => let p' := Parts.setQuiet p b; ({ st with parts := AL.set st.parts w p' }, .list [.atom "ok", encPart p'])
+    | _, _ => (st, .atom "bad-op")
   | .list [.atom "lnew", n] => match asStr? n with
     | some n => layerOp st (.newLayer n)
     | none => (st, .atom "bad-op")
